@@ -145,6 +145,11 @@ func runCache(raw json.RawMessage) interface{} {
 					case "empty":
 						os.WriteFile(file, []byte{}, 0o600)
 						os.Chtimes(file, mt, mt)
+					case "trailing":
+						// a torn write: a complete entry followed by the tail of a longer one
+						b, _ := os.ReadFile(file)
+						os.WriteFile(file, append(b, []byte(`"x"}]}`)...), 0o600)
+						os.Chtimes(file, mt, mt)
 					case "dir":
 						os.Remove(file)
 						os.Mkdir(file, 0o700)
@@ -186,6 +191,10 @@ func genCache(r *rng, tier string) interface{} {
 		return t
 	}
 	tuples := [][][]string{tuple(), tuple(), tuple()}
+	if r.chance(15) {
+		// tuples of the same length whose key texts concatenate to the same string
+		tuples = [][][]string{{{"ab"}, {"c"}}, {{"a"}, {"bc"}}, {{"abc"}, {""}}}
+	}
 	timeouts := []int{10, 100, -1, 1000}
 	in.Const = r.chance(20)
 	nops := 3 + r.intn(12)
@@ -204,7 +213,7 @@ func genCache(r *rng, tier string) interface{} {
 		case k < 16:
 			in.Ops = append(in.Ops, cacheOp{K: "advance", Dt: pick(r, []int{3, 5, 15, 50, 95, 105, 1000})})
 		case k < 18:
-			kind := pick(r, []string{"garbage", "truncate", "empty"})
+			kind := pick(r, []string{"garbage", "truncate", "empty", "trailing"})
 			if r.intn(40) == 0 {
 				kind = "loop"
 			}
